@@ -10,6 +10,8 @@ THEOREMS = [
     "GE.Css.generic_keeps_low",
     "GE.Css.wrote_hostBody",
 ]
+THM_SHEET = ["GE.Css.sheet_partition", "GE.Css.rules_sheet", "GE.Css.host_off_low_empty", "GE.Css.qualRule_sheet", "GE.Css.atLoop_sheet",
+             "GE.Css.rules_fuel_sufficient"]
 
 
 def focus(r, o):
@@ -45,10 +47,17 @@ def run(chk):
     chk.assumptions = ["host_rule_moves / host_combination_dropped / host_off_generic are theorems about one rule (`qualRule`): a pure `:host{}` "
                        "writes nothing to the normal output and exactly [chain…{ selector { block } }…] to the low output with balanced braces, a "
                        "combination changes neither output and adds one warning, anything else is the generic rule and leaves the low output "
-                       "untouched; PARTIAL: that the rule loop (`rules`, fuel-bounded in the model) visits every rule once and keeps the order is "
-                       "covered by correspondence + oracle, not by a theorem"]
+                       "untouched. sheet_partition (GE/Thm/C17Sheet.lean) lifts this to the WHOLE stylesheet model `transform` (no import sign): the token kinds of "
+                       "the normal and of the low-priority output are exactly those of the fuel-free reading `go` of the token tree — every rule once, non-host "
+                       "rules in the normal output in source order, each `:host{}` in the low output inside the chain of the WRITTEN preludes of its enclosing "
+                       "rule-bearing at-rules, `:host` combinations in neither; at-rule dispatch (rule list vs declaration block vs `;`) included; with conversion "
+                       "off the low output is empty (host_off_low_empty); the model's fuel is never exhausted. PARTIAL: with an import sign the theorem is not "
+                       "stated (import wrappers: import_balanced in C18); payloads (strings, numbers) of the tokens are covered by C09 / C10's theorems per rule"]
     csscheck.run_property(chk, "C17", "GE.Thm.C17", THEOREMS, 700, 12000, focus=focus, extra_cases=extra_cases,
                           nontrivial=lambda o, css, res: ":host" in css)
+    failed, log = chk.prove("GE.Thm.C17Sheet", THM_SHEET)
+    for t in failed:
+        chk.violation("proof", f"obligation {t} no longer checks", theorem=t, log=log[-3000:])
 
 
 def replay(chk, path):
